@@ -208,6 +208,9 @@ func TestVerifC18Servers(t *testing.T) {
 		returned := make(chan struct{})
 		go func() { Shutdown(wait); close(returned) }()
 		// causal barrier: the listener refuses new connections
+		// (a connection that was still served only shows that shutdown had not got
+		// to the listener yet; the loop ends at the first connect that is not served,
+		// and gives up after ~5000 served connects, i.e. the listener never closed)
 		refused := false
 		for i := 0; i < 5000; i++ {
 			c, err := c18Dial(s.kind, addr)
@@ -234,11 +237,6 @@ func TestVerifC18Servers(t *testing.T) {
 			if !served {
 				refused = true
 				break
-			}
-			select {
-			case <-returned:
-				i = 5000
-			default:
 			}
 			time.Sleep(time.Millisecond)
 		}
